@@ -153,6 +153,10 @@ func runWriter(tb ev.TB, c writerCase) (labels []string, nontrivial bool) {
 		return nil, false
 	}
 	// (c) after Close
+	if !wsim.IsClosedPipe(res.AfterCloseEmpty) {
+		fail("c09/write-after-close", "WriteMessages (called with no messages) after Close returned %v, want io.ErrClosedPipe", res.AfterCloseEmpty)
+		return
+	}
 	if !wsim.IsClosedPipe(res.AfterClose) {
 		fail("c09/write-after-close", "WriteMessages after Close returned %v, want io.ErrClosedPipe", res.AfterClose)
 		return
